@@ -132,7 +132,8 @@ class Harness:
                 f = self.mgr.download('bkt', key, os.path.join(self.tmp, key + '.out'), extra_args=dict(extra), subscribers=subs)
             elif method == 'copy':
                 self.s3.api_sizes[('srcbkt', key)] = size
-                f = self.mgr.copy({'Bucket': 'srcbkt', 'Key': key}, 'bkt', key, extra_args=dict(extra), subscribers=subs)
+                self.last_copy_source = {'Bucket': 'srcbkt', 'Key': key}
+                f = self.mgr.copy(self.last_copy_source, 'bkt', key, extra_args=dict(extra), subscribers=subs)
             else:
                 f = self.mgr.delete('bkt', key, extra_args=dict(extra), subscribers=subs)
         except Exception as e:  # noqa
@@ -173,6 +174,11 @@ def check_cell(fe, method, mode, extra, calls, checksum_mode, provide_size, err,
         if unknown:
             out.append(V(f'{ctx}: {op} received parameter(s) {unknown} that the operation does not have', sym='unknown-param', op=op,
                          arg=unknown[0], **mech0))
+        if method == 'copy' and op in ('CopyObject', 'UploadPartCopy'):
+            cs = params.get('CopySource')
+            if isinstance(cs, dict) and set(cs) - {'Bucket', 'Key', 'VersionId'}:
+                out.append(V(f'{ctx}: {op} received a CopySource with extra entries {sorted(set(cs) - {"Bucket", "Key", "VersionId"})} '
+                             f'(the user supplied only Bucket and Key)', sym='copy-source-modified', op=op, arg='CopySource', **mech0))
         is_copy_head = method == 'copy' and op == 'HeadObject'
         for a, v in extra.items():
             if is_copy_head:
@@ -301,6 +307,26 @@ def run_manager_cells(case):
             stats['ops_compared'] += n
             if n:
                 keys.add(('manager', method, mode, tuple(sorted(extra)), ps, case['checksum_mode']))
+            if method == 'copy' and not ps and not case['fail_part'] and extra:
+                # the caller's copy_source dict must come back untouched, and a second copy reusing it without extra
+                # arguments must not carry anything over
+                src = h.last_copy_source
+                if set(src) != {'Bucket', 'Key'}:
+                    viol.append(V(f'manager.copy[{mode}] extra_args={sorted(extra)}: the caller\'s copy_source dict was modified: {sorted(src)}',
+                                  sym='copy-source-modified', front_end='manager', method='copy', mode=mode, arg='CopySource'))
+                h.n += 1
+                key2 = f'cell{h.n}'
+                h.s3.api_sizes[(src['Bucket'], src['Key'])] = 1024
+                try:
+                    h.mgr.copy(src, 'bkt', key2).result()
+                except Exception:
+                    pass
+                for (op2, p2) in h.calls_for(key2):
+                    stray = [a for a in p2 if a in HEAD_MAP.values() or a in ('RequestPayer', 'ExpectedBucketOwner')]
+                    if op2 == 'HeadObject' and stray:
+                        viol.append(V(f'manager.copy: a second copy reusing the same copy_source dict without extra_args sent {stray} to HeadObject',
+                                      sym='stale-args', front_end='manager', method='copy', mode=mode, op='HeadObject', arg=stray[0]))
+                stats['reuse_checks'] = stats.get('reuse_checks', 0) + 1
     finally:
         h.close()
     return viol, stats, keys
